@@ -381,10 +381,14 @@ def valid_input(v, rng: random.Random, lazy: list, depth: int = 6):
         return ("VDict", kvs)
     if c == "ClassV":
         kvs = []
+        # an instance of the target class (every field set) is as good an input as a mapping
+        inst = v[1][0] != "RkTyped" and v[7] is None and rng.random() < 0.2
         for p in v[3]:
-            if not p.b.b and rng.random() < 0.4:
+            if not inst and not p.b.b and rng.random() < 0.4:
                 continue
             kvs.append(P(p.a, valid_input(p.b.a, rng, lazy, depth - 1)))
+        if inst:
+            return ("VObj", v[2], kvs)
         return ("VDict", kvs)
     if c == "UnionV":
         return valid_input(rng.choice(v[1]), rng, lazy, depth - 1)
